@@ -334,4 +334,6 @@ def run(src, out):
     out.attempt(f, "rect_intersect", lambda: t_rect_intersect(src))
     out.attempt(f, "rect_center", lambda: t_rect_center(src))
     out.attempt(f, "ell_update", lambda: t_ell_update(src))
+    import algos
+    algos.run(src, out, hdr)
     return hdr
